@@ -71,11 +71,15 @@ def run(chk, F, family, delegates, rid="R-DESCEND", prop=""):
             n += 1
             x = expanded_fn(fn, F, stop=tuple(fam), accept=lambda t: not t.get("cls"))   # file-local helpers, lambdas
             size_locals = set()
+            begin_locals = set()        # `const auto operands = data->sub.begin();`
             for d in walk(x["body"]):
                 if d.get("k") == "decl":
                     for v in d.get("vars", []):
                         if v.get("init") is not None and _size_expr(v["init"], set()):
                             size_locals.add(v.get("id"))
+                        if v.get("init") is not None and "sub" in short(v["init"]) and \
+                                any(c_.get("name") in ("begin", "cbegin") for c_ in calls(v["init"])):
+                            begin_locals.add(v.get("id"))
 
             def asks_family(node, child_pred):
                 """a family member is called on an expression accepted by child_pred"""
@@ -126,12 +130,32 @@ def run(chk, F, family, delegates, rid="R-DESCEND", prop=""):
                     if c.get("name") in ("any_of", "all_of", "none_of", "for_each", "count_if", "find_if") and \
                             len(c.get("args", [])) >= 3:
                         a0, a1 = short(c["args"][0]), short(c["args"][1])
-                        if "sub" in a0 and "begin" in a0 and "sub" in a1 and "end" in a1:
+                        whole = "sub" in a0 and "begin" in a0 and "sub" in a1 and "end" in a1
+                        if not whole:
+                            # `const auto operands = data->sub.begin(); any_of(operands, operands + get_size(), ..)`
+                            r0 = strip(c["args"][0])
+                            r1 = strip(c["args"][1])
+                            if isinstance(r0, dict) and r0.get("k") == "ref" and r0.get("id") in begin_locals:
+                                plus = r1 if isinstance(r1, dict) else {}
+                                while plus.get("k") in ("construct", "cast", "materialize") and (plus.get("args") or plus.get("e")):
+                                    plus = strip(plus["args"][0] if plus.get("args") else plus["e"])
+                                args_ = ([plus.get("recv")] if plus.get("recv") is not None else []) + list(plus.get("args", [])) \
+                                    if plus.get("k") == "call" else [plus.get("lhs"), plus.get("rhs")]
+                                args_ = [strip(a_) for a_ in args_ if a_ is not None]
+                                if len(args_) == 2 and args_[0].get("k") == "ref" and args_[0].get("id") == r0.get("id") and \
+                                        _size_expr(args_[1], size_locals):
+                                    whole = True
+                        if whole:
                             lam = strip(c["args"][2])
                             if lam.get("k") == "lambda" and lam.get("params"):
                                 pn = lam["params"][0]["name"]
                                 if body_always_asks(lam.get("body"), lambda r: strip(r).get("k") == "ref" and
                                                     strip(r).get("name") == pn):
+                                    return True
+                            # std::mem_fn(&expression_t::uses_fp): the member of the family is asked about each operand
+                            if lam.get("k") == "call" and lam.get("name") == "mem_fn" and lam.get("args"):
+                                tgt = short(lam["args"][0])
+                                if any(tgt.endswith("::" + m_) or tgt.endswith(m_) for m_ in fam):
                                     return True
                 return False
 
